@@ -381,7 +381,7 @@ func init() {
 					if fileMutators[name] {
 						for _, ref := range refs {
 							muts = append(muts, name+" in "+rr.chain(ref.from))
-							okSite := cmd == "genCmd.Execute" && ref.from.Name == "GenerateResult.Commit" && (name == "io/ioutil.WriteFile" || name == "os.WriteFile")
+							okSite := cmd == "genCmd.Execute" && ref.from.Name == "GenerateResult.Commit" && (name == "io/ioutil.WriteFile" || name == "os.WriteFile" || name == "os.Create" || name == "os.OpenFile") // how it writes: C16.R9
 							r.Check(okSite, cmd+"/mutation:"+name+"@"+ref.from.Name, ref.pos.Pos(), "file mutation %s reachable via %s", name, rr.chain(ref.from))
 						}
 					}
@@ -393,26 +393,26 @@ func init() {
 					r.Check(len(muts) == 0, cmd+"/read-only", fi.Decl.Pos(), "no file-mutating call is reachable from %s (%d in-module functions analysed)", cmd, len(rr.in))
 				}
 			}
-			// positive control: the detector sees WriteFile in Commit
+			// positive control: the detector sees the write in Commit
 			cm := r.Need(c.Fn(c.W, "GenerateResult.Commit"), "GenerateResult.Commit")
 			if cm != nil {
-				var wf *ast.CallExpr
-				for _, cl := range cm.callsDeep(cm.Decl.Body) {
-					if n := cm.calleeName(cl); n == "io/ioutil.WriteFile" || n == "os.WriteFile" {
-						wf = cl
+				ws := cm.fileWrites()
+				r.Control("file-mutation detector (WriteFile in Commit)", len(ws) > 0, cm.Decl.Pos())
+				if len(ws) > 0 {
+					w := ws[0]
+					var f0, f1 *types.Var
+					f0 = cm.selField(w.path)
+					if w.data != nil {
+						f1 = cm.selField(cm.deref(w.data))
 					}
-				}
-				r.Control("file-mutation detector (WriteFile in Commit)", wf != nil, cm.Decl.Pos())
-				if wf != nil {
-					f0, f1 := cm.selField(wf.Args[0]), cm.selField(wf.Args[1])
-					r.Check(f0 != nil && f0.Name() == "OutputPath" && f1 != nil && f1.Name() == "Content", "Commit/writes-OutputPath-Content", wf.Pos(), "Commit writes the whole Content to OutputPath (truncating write)")
+					r.Check(w.whole && f0 != nil && f0.Name() == "OutputPath" && f1 != nil && f1.Name() == "Content", "Commit/writes-OutputPath-Content", w.site.Pos(), "Commit writes the whole Content to OutputPath (truncating write)")
 					okG := false
-					for _, g := range cm.Guards(wf) {
+					for _, g := range cm.Guards(w.site) {
 						if x, ne, ok := cm.lenTest(g); ok && ne && cm.selField(x) != nil && cm.selField(x).Name() == "Content" {
 							okG = true
 						}
 					}
-					r.Check(okG, "Commit/only-non-empty", wf.Pos(), "nothing is written when Content is empty (failed or injector-less package)")
+					r.Check(okG, "Commit/only-non-empty", w.site.Pos(), "nothing is written when Content is empty (failed or injector-less package)")
 				}
 			}
 			// Commit is called only from genCmd.Execute
@@ -708,6 +708,15 @@ func init() {
 					continue
 				}
 				for _, ref := range refs {
+					if cl, ok := ref.from.parent[ref.pos].(*ast.CallExpr); ok && ref.from.opensForWritingOnly(cl) {
+						continue // write-only open: nothing is read
+					} else if cl, ok := ref.pos.(*ast.CallExpr); ok && ref.from.opensForWritingOnly(cl) {
+						continue
+					} else if sel, ok := ref.from.parent[ref.pos].(*ast.SelectorExpr); ok {
+						if cl, ok := ref.from.parent[sel].(*ast.CallExpr); ok && ref.from.opensForWritingOnly(cl) {
+							continue
+						}
+					}
 					r.Check(ref.from.Name == "newGenerateOptions", "gen/file-read:"+name+"@"+ref.from.Name, ref.pos.Pos(), "gen reads %s only for the header file (via %s)", name, rr.chain(ref.from))
 				}
 			}
